@@ -103,6 +103,24 @@ void PoolWakeState::wakeRange(int32_t count) {
 }
 
 int32_t PoolWakeState::claimAndWakeOne() {
+  int32_t threadIdx = claimOne();
+  if (threadIdx >= 0) {
+    // Wake one thread from this group's shared waiter (the claimed
+    // thread's bit is cleared so other callers see one fewer sleeper).
+    waiterFor(threadIdx).bumpAndWake();
+  } else if (totalSleeping_.load(std::memory_order_relaxed) > 0) {
+    // No bit could be claimed although totalSleeping_ (maintained only by the sleepers themselves)
+    // says somebody is parked: a parked thread whose bit an earlier claimer cleared while the kernel
+    // released a different waiter of the shared futex (see wakeAll). Wake one waiter per group
+    // rather than nobody, or the new work waits for a busy thread or for the sleep backstop.
+    for (int32_t gi = 0; gi < numGroups_; ++gi) {
+      waiterFor(gi * groupSize_).bumpAndWake();
+    }
+  }
+  return threadIdx;
+}
+
+int32_t PoolWakeState::claimOne() {
   if (totalSleeping_.load(std::memory_order_relaxed) <= 0) {
     return -1;
   }
@@ -116,9 +134,6 @@ int32_t PoolWakeState::claimAndWakeOne() {
       int bit = detail::countTrailingZeros(mask);
       int32_t threadIdx = g * groupSize_ + bit;
       if (threadIdx < numThreads_ && tryClaimSleeper(threadIdx)) {
-        // Wake one thread from this group's shared waiter (the claimed
-        // thread's bit is cleared so other callers see one fewer sleeper).
-        waiterFor(threadIdx).bumpAndWake();
         nextWakeGroup_.store(nextGroupTable_[static_cast<size_t>(g)], std::memory_order_relaxed);
         return threadIdx;
       }
